@@ -54,6 +54,7 @@ pub fn gen_plan(seed: u64, entry: Entry, thorough: bool) -> CrashPlan {
         allow_restart: false,
         allow_seed: false,
         foreign_lock_pct: if r.chance(30, 100) { 15 } else { 0 },
+        allow_empty_payload: false,
     };
     let mut ops = seq::gen_ops(&mut r, &p, n_clients, &cfg, page);
     ops.retain(|o| !matches!(o, Op::Advance { .. }));
